@@ -151,7 +151,7 @@ func H_C03_bind() {
 
 type c03S struct {
 	name, src string
-	check    func(res object.PanObject, a, b int64) bool
+	check     func(res object.PanObject, a, b int64) bool
 }
 
 func arrOfInts(res object.PanObject, want ...int64) bool {
@@ -237,6 +237,8 @@ var c03Scenarios = []c03S{
 			arr, ok := r.(*object.PanArr)
 			return ok && len(arr.Elems) == 4 && isInt(arr.Elems[0], 1) && isInt(arr.Elems[1], a) && isInt(arr.Elems[2], 0) && arrOfInts(arr.Elems[3], 1, a)
 		}},
+	{"a keyword default is evaluated in the scope of each evaluation of the literal", `mk := {|n| {|x, step: n| x + step}}; f1 := mk(a); f2 := mk(b); om := {|n| {get: m{|k: n| k}}}; o1 := om(a); o2 := om(b); [f1(0), f2(0), f1(0), f2(0, step: 5), o1.get, o2.get]`,
+		func(r object.PanObject, a, b int64) bool { return arrOfInts(r, a, b, a, 5, a, b) }},
 	{"a method body sees its defining scope, not the receiver's properties as variables", `v := a; o := {v: b, get: m{|| v}}; o.get`,
 		func(r object.PanObject, a, b int64) bool { return isInt(r, a) }},
 }
